@@ -33,8 +33,8 @@ FInit ==
   /\ commits = <<>> /\ nops = 0
   /\ rd \in RankDirs
   /\ ref = [r \in Replica |-> [b \in Bugs |-> 0]]
-  /\ trk = [r \in Replica |-> [b \in Bugs |-> 0]]
-  /\ hub = [b \in Bugs |-> 0]
+  /\ trk = [r \in Replica |-> [m \in Remote |-> [b \in Bugs |-> 0]]]
+  /\ hub = [m \in Remote |-> [b \in Bugs |-> 0]]
   /\ clk = [r \in Replica |-> [e |-> 1, c |-> 1, de |-> 1, dc |-> 1]]
   /\ res = NoRes
 FNext ==
@@ -57,8 +57,8 @@ OctoDags ==
 OInit ==
   /\ commits \in OctoDags /\ nops = 0 /\ rd = 1
   /\ ref = [r \in Replica |-> [b \in Bugs |-> Len(commits)]]
-  /\ trk = [r \in Replica |-> [b \in Bugs |-> 0]]
-  /\ hub = [b \in Bugs |-> 0]
+  /\ trk = [r \in Replica |-> [m \in Remote |-> [b \in Bugs |-> 0]]]
+  /\ hub = [m \in Remote |-> [b \in Bugs |-> 0]]
   /\ clk = [r \in Replica |-> [e |-> 1, c |-> 1, de |-> 1, dc |-> 1]]
   /\ res = NoRes
 OSpec == OInit /\ [][UNCHANGED <<vars, rd>>]_<<vars, rd>>
